@@ -155,24 +155,17 @@ func (r *rateLimiter) UpdateRateLimitConditionStatus(upstream string, condition 
 	mutex.Lock()
 	defer mutex.Unlock()
 
-	oldCondition, err := limitStore.Get(condition.Spec.UpstreamCluster, condition.Name)
-	if errors.IsNotFound(err) {
-		oldCondition = &proxyv1alpha1.RateLimitCondition{
-			TypeMeta:   upstreamCondition.TypeMeta,
-			ObjectMeta: metav1.ObjectMeta{Name: condition.Name},
-			Spec: proxyv1alpha1.RateLimitSpec{
-				UpstreamCluster:         upstreamCondition.Spec.UpstreamCluster,
-				LimitItemConfigurations: condition.Spec.DeepCopy().LimitItemConfigurations,
-			},
-		}
-	} else if err != nil {
+	if _, err := limitStore.Get(condition.Spec.UpstreamCluster, condition.Name); err != nil && !errors.IsNotFound(err) {
 		return nil, err
 	}
 
 	if condition.Labels == nil {
 		condition.Labels = map[string]string{}
 	}
-	condition.Labels["proxy.kubegateway.io/ratelimitcondition.instance"] = oldCondition.Spec.Instance
+	// The label names the instance that owns this condition. It used to be copied from the
+	// previously stored condition, so a first report was labelled "": the timeout pass could not
+	// find it, and the timeout of a client with an empty identity removed it from live instances.
+	condition.Labels[RateLimitConditionInstanceLabel] = condition.Spec.Instance
 
 	clients, err := r.clientCache.AllClients()
 	if err != nil {
